@@ -2,9 +2,9 @@
    payload, rewind writeNext to the first queued segment that no longer fits, resend from there).
    Model.Tcp has no event for this, so there is no correspondence for these lock-step traces beyond
    the handshake-derived first snapshot (corr = 0 by construction): they are judged by the property
-   monitors alone, on the implementation's observations - C01 data integrity (every emitted segment
-   is the slice of the written stream its sequence number names; reads are a prefix of the peer's
-   stream), the C04 window / MSS monitor and the C02 close / stall monitor.  In the trace the
+   monitors alone, on the implementation's observations - here C01 data integrity (every emitted
+   segment is the slice of the written stream its sequence number names; reads are a prefix of the
+   peer's stream); the C04 check judges traces of the same kind by its window / MSS monitor.  In the trace the
    notification appears as an application write of zero bytes.  Labelled monitor-only in the evidence. *)
 From Coq Require Import ZArith List Bool.
 From NP Require Export Model.Seqnum Model.Tcp Corr.TcpTrace.
@@ -14,7 +14,9 @@ Open Scope Z_scope.
 
 Definition case := TcpTrace.case.
 
-Definition spec (c : case) : Z := C14tcp.spec1 c.
+(* C01's own clause only; the same traces are judged against the window / MSS clauses by the C04
+   check (Corr/C04mtu.v) *)
+Definition spec (c : case) : Z := C01.spec c.
 
 Definition is_mtu_step (o : obs) : bool :=
   match o_ev o, o_res o with
